@@ -64,6 +64,10 @@ pub fn alphabet(p: &Program) -> Vec<Op> {
             ops.push(Op::Session { writes: vec![W::Set(i, v)], commit: true });
         }
         ops.push(Op::Session { writes: vec![W::Set(i, 1)], commit: false });
+        // one input assigned twice inside one session: the last write must
+        // win in the store as it does in memory
+        ops.push(Op::Session { writes: vec![W::Set(i, 1), W::Set(i, 2)], commit: true });
+        ops.push(Op::Session { writes: vec![W::Set(i, 2), W::Upd(i, 2)], commit: true });
         ops.push(Op::Multi(vec![
             Op::Session { writes: vec![W::Set(i, 1)], commit: true },
             Op::Query(vec![root]),
